@@ -6,13 +6,34 @@ Evaluation points = xe (from the harness) + every knot + knots -/+ a small offse
 (sorted when keys is None).  All floats are returned as Python floats (exact doubles).
 """
 import json
+import os
 import sys
 import warnings
 
 import numpy as np
 
-import pydl
-from pydl.pydlutils.bspline import bspline
+
+def _globals_snapshot():
+    return {'geterr': dict(np.geterr()), 'printoptions': {k: repr(v) for k, v in np.get_printoptions().items()},
+            'warnings.filters': len(warnings.filters), 'environ': hash(tuple(sorted(os.environ.items())))}
+
+
+# the third-party packages pydl builds on are imported first: what is measured is what importing pydl itself changes
+import scipy.linalg, scipy.special, scipy.interpolate, scipy.optimize                                        # noqa: E401,E402
+import astropy, astropy.io.fits, astropy.units, astropy.table, astropy.utils.data, astropy.wcs, astropy.time  # noqa: E401,E402
+try:
+    with warnings.catch_warnings():
+        warnings.simplefilter('ignore')
+        import astropy.tests.runner                                                                          # noqa: F401
+except Exception:  # noqa: BLE001
+    pass
+
+_G0 = _globals_snapshot()          # before pydl is imported (the import must not change process-global settings)
+
+import pydl                                                    # noqa: E402
+from pydl.pydlutils.bspline import bspline                     # noqa: E402
+
+_G1 = _globals_snapshot()
 
 
 def err(e):
@@ -23,9 +44,52 @@ def fl(a):
     return [float(v) for v in np.asarray(a).ravel()]
 
 
+def laid_out(a, layout):
+    """the same values as `a` in an array object with another memory layout: every second element of a longer buffer, or a
+    reversed-stride view"""
+    a = np.asarray(a, dtype='d')
+    if layout == 'strided':
+        buf = np.zeros(2 * a.size + 1, dtype='d')
+        v = buf[1::2]
+        v[:] = a
+        return v
+    if layout == 'reversed':
+        buf = np.ascontiguousarray(a[::-1])
+        return buf[::-1]
+    return a.copy()
+
+
+def cover_repair(arr, x):
+    """what the constructor is documented to do to explicit breakpoints that do not cover the data: the smallest entry
+    (first position) becomes x.min(), the largest x.max() (BSpline/Eval.v: cover)"""
+    e = np.array(arr, dtype='d', copy=True)
+    if e.size:
+        i0, i1 = int(e.argmin()), int(e.argmax())
+        if x.min() < e[i0]:
+            e[i0] = x.min()
+        if x.max() > e[i1]:
+            e[i1] = x.max()
+    return e
+
+
+def observe(b, xe):
+    """value / intrv / bsplvn / action of object b at the points xe (a fresh copy is evaluated)"""
+    perm = xe.argsort()
+    with warnings.catch_warnings():
+        warnings.simplefilter('ignore')
+        yy, mask = b.value(xe.copy())
+        indx = b.intrv(xe[perm])
+        bs = b.bsplvn(xe[perm], indx)
+        _a, lower, upper = b.action(xe[perm])
+    return {'perm': [int(i) for i in perm], 'yy': fl(yy), 'mask': [bool(v) for v in mask], 'indx': [int(v) for v in indx],
+            'bs': [fl(row) for row in np.asarray(bs)], 'lower': [int(v) for v in lower], 'upper': [int(v) for v in upper],
+            'finite': bool(np.all(np.isfinite(yy)) and np.all(np.isfinite(bs)))}
+
+
 def call(c):
     k = int(c['nord'])
-    xs = np.array(c['xs'], dtype='d')            # handed to the constructor; compared afterwards
+    xs = laid_out(c['xs'], c.get('xs_layout'))   # handed to the constructor; compared afterwards
+    xs0 = np.array(c['xs'], dtype='d')
     opt = c['opt']
     kw = {'nord': k, 'bkspread': float(c.get('bkspread', 1.0))}
     kind = opt['kind']
@@ -44,6 +108,29 @@ def call(c):
         r = err(e)
         r['stage'] = 'init'
         return r
+    init_mut = []
+    if not np.array_equal(xs, xs0):
+        init_mut.append('bspline.x')
+    if kind in ('bkpt', 'placed'):
+        garr, g0 = kw[kind], np.array(opt['value'], dtype='d')
+        if not np.array_equal(garr, g0):
+            if kind == 'bkpt' and np.array_equal(garr, cover_repair(g0, xs0)):
+                out['bkpt_cover_repair_in_place'] = True      # the documented adjustment, written into the caller's array
+            else:
+                init_mut.append('bspline.' + kind)
+        # a second object from the SAME argument objects (a grid shared by many splines) must get the same knots as one
+        # built from pristine copies of what the caller holds now
+        try:
+            with warnings.catch_warnings():
+                warnings.simplefilter('ignore')
+                b2 = bspline(xs, **kw)
+                kwf = dict(kw)
+                kwf[kind] = (cover_repair(g0, xs0) if out.get('bkpt_cover_repair_in_place') else g0).copy()
+                b3 = bspline(xs0.copy(), **kwf)
+            out['second_init_same'] = bool(np.array_equal(b2.breakpoints, b.breakpoints) and np.array_equal(b3.breakpoints, b.breakpoints))
+            out['object_keeps_argument'] = bool(np.shares_memory(b.breakpoints, garr) or np.shares_memory(b.breakpoints, xs))
+        except Exception as e:  # noqa: BLE001
+            out['second_init'] = err(e)
     try:
         bk = np.asarray(b.breakpoints)
         out['bk'] = fl(bk)
@@ -73,6 +160,8 @@ def call(c):
             xe = np.array(pts, dtype='d')
         else:
             xe = np.array(list(c['xe']) + [float(v) for v in extra], dtype='d')
+        if c.get('dups') and xe.size > 2:
+            xe = np.concatenate([xe, xe[:: max(1, xe.size // int(c['dups']))][:int(c['dups'])]])      # repeated evaluation points
         keys = c.get('keys')
         if keys is None:
             xe = np.sort(xe)
@@ -82,7 +171,7 @@ def call(c):
         out['xe'] = fl(xe)
         perm = xe.argsort()
         out['perm'] = [int(i) for i in perm]
-        xarg = xe.copy()                      # the caller's array: must come back bit-identical
+        xarg = laid_out(xe, c.get('xe_layout'))      # the caller's array: must come back bit-identical
         with warnings.catch_warnings():
             warnings.simplefilter('ignore')
             yy, mask = b.value(xarg)
@@ -90,9 +179,59 @@ def call(c):
             indx = b.intrv(xsrt)
             bs = b.bsplvn(xsrt, indx)
             act, lower, upper = b.action(xsrt)
-        out['args_mutated'] = [nm for nm, a0, a1 in (('value.x', xe, xarg), ('bspline.x', np.array(c['xs'], dtype='d'), xs))
-                               if not np.array_equal(a0, a1)]
+        out['args_mutated'] = init_mut + [nm for nm, a0, a1 in (('value.x', xe, xarg), ('bspline.x', xs0, xs))
+                                          if not np.array_equal(a0, a1) and nm not in init_mut]
         out['result_aliases_arg'] = bool(np.shares_memory(yy, xarg) or np.shares_memory(mask, xarg))
+        # ---- derived objects: a deep copy and a pickle round trip must evaluate exactly like the object they come from
+        try:
+            import copy
+            import pickle
+            with warnings.catch_warnings():
+                warnings.simplefilter('ignore')
+                dv = [d_.value(xe.copy()) for d_ in (copy.deepcopy(b), pickle.loads(pickle.dumps(b)), copy.copy(b))]
+            out['derived_same'] = bool(all(np.array_equal(y_, yy, equal_nan=True) and np.array_equal(m_, mask) for y_, m_ in dv))
+        except Exception as e:  # noqa: BLE001
+            out['derived_err'] = err(e)
+        # ---- the SAME array object evaluated again after the caller changed its contents in place (a reused work buffer),
+        #      or handed to a second object on the same grid; knots unchanged, coefficients changed or not
+        ru = c.get('reuse')
+        if ru:
+            try:
+                mode = ru['mode']
+                rs = np.random.RandomState(int(ru.get('seed', 0)) % (2 ** 31))
+                dx = span * float(ru.get('shift', 0.0625))
+                target = b
+                if mode == 'iadd':
+                    xarg += dx
+                elif mode == 'assign':
+                    xarg[:] = xe[::-1] + dx
+                elif mode == 'shuffle':
+                    rs.shuffle(xarg)
+                elif mode == 'sort':
+                    xarg.sort()
+                elif mode == 'second-object':
+                    with warnings.catch_warnings():
+                        warnings.simplefilter('ignore')
+                        target = bspline(xs0.copy(), **{k_: (v.copy() if isinstance(v, np.ndarray) else v) for k_, v in kw.items()})
+                    target.coeff = np.array(c['coeff'][nc:2 * nc], dtype='d')
+                newco = np.array(c['coeff'][nc:2 * nc], dtype='d') if (ru.get('newcoeff') or mode == 'second-object') else np.array(c['coeff'][:nc], dtype='d')
+                if target is b and ru.get('newcoeff'):
+                    if ru.get('coeff_inplace'):
+                        b.coeff[:] = newco
+                    else:
+                        b.coeff = newco.copy()
+                xnow = xarg.copy()
+                with warnings.catch_warnings():
+                    warnings.simplefilter('ignore')
+                    yyr, maskr = target.value(xarg)            # the very same ndarray object as in the first call
+                o2 = observe(target, xnow)
+                o2.update({'bk': fl(np.asarray(target.breakpoints)), 'coeff': fl(newco), 'xe': fl(xnow), 'yy': fl(yyr),
+                           'mask': [bool(v) for v in maskr], 'arg_modified': bool(not np.array_equal(xnow, xarg)),
+                           'finite': bool(o2['finite'] and np.all(np.isfinite(yyr)))})
+                out['reuse'] = o2
+                b.coeff = np.array(c['coeff'][:nc], dtype='d')
+            except Exception as e:  # noqa: BLE001
+                out['reuse'] = err(e)
         # ---- history on the same object: change knots and coefficients (in place or by assignment), evaluate again
         h = c.get('history')
         if h:
@@ -213,7 +352,10 @@ def call_long(c):
 
 def main():
     calls = json.load(sys.stdin)
-    json.dump({'pydl_file': pydl.__file__, 'results': [call_long(c) if c.get('long') else call(c) for c in calls]}, sys.stdout)
+    res = [call_long(c) if c.get('long') else call(c) for c in calls]
+    g2 = _globals_snapshot()
+    json.dump({'pydl_file': pydl.__file__, 'results': res,
+               'globals_changed': {'by_import': [k for k in _G0 if _G0[k] != _G1[k]], 'by_calls': [k for k in _G1 if _G1[k] != g2[k]]}}, sys.stdout)
 
 
 if __name__ == '__main__':
